@@ -17,7 +17,7 @@ META = {
                   'validate_idem + validate_canon = revalidate_unchanged (hypothesis GridExact), call_idem (hypothesis GridAll), '
                   'inSetB_sound / inSetB_complete.  The models are tied to frappy/datatypes.py by a correspondence run on the real '
                   'classes; the Lean monitors are `decide` of the specification Props themselves.',
-    'level_note': 'Trusted: Lean kernel + axioms propext/Classical.choice/Quot.sound; the 28 laws of LawfulFloatOps for binary64 (all '
+    'level_note': 'Trusted: Lean kernel + axioms propext/Classical.choice/Quot.sound; the 27 laws of LawfulFloatOps for binary64 (all '
                   'proved for the exact carrier Rat; re-tested on the doubles of every run - a test).  GridExact / GridAll (hypotheses '
                   'of idempotence) hold over Rat; for binary64 they can fail where scale is below the float spacing (grid indices '
                   'beyond 2^53) - the generator probes that region.  lazy_number_validation stays False.  Lone-surrogate strings and '
